@@ -24,6 +24,8 @@ def random_evidence(rs, scope, order, dom, ncols, n_rows):
         for v in scope:
             if rs.rand() < p_obs:
                 X[r, v] = cont_value(rs, cont[v]) if v in cont else rs.randint(dom[v])
+                if v in cont and isinstance(cont[v][0], Gaussian) and rs.rand() < 0.15:
+                    X[r, v] = float(cont[v][0].mean) + float(rs.choice([-1, 1])) * float(rs.choice([20, 45])) * float(cont[v][0].stddev)   # far outlier
     # columns outside the scope: arbitrary observed values and NaNs that must stay as they are
     for v in range(ncols):
         if v not in scope:
@@ -66,6 +68,53 @@ def basic_contract(X, Y, scope, order):
     return None
 
 
+def leaf_mode(n, xrow):
+    """the mode each leaf family fills in (the property: 'filling leaves with their modes')"""
+    if isinstance(n, Bernoulli):
+        return {n.scope[0]: 0.0 if float(n.p) < 0.5 else 1.0}
+    if isinstance(n, Categorical):
+        return {n.scope[0]: float(n.categories[int(np.argmax(n.probabilities))])}
+    if isinstance(n, Gaussian):
+        return {n.scope[0]: float(np.float32(n.mean))}
+    if isinstance(n, Uniform):
+        return {n.scope[0]: float(np.float32(n.start))}
+    if isinstance(n, Isotonic):
+        i = int(np.argmax(n.densities))
+        return {n.scope[0]: float(np.float32((n.breaks[i] + n.breaks[i + 1]) / 2.0))}
+    if isinstance(n, BinaryCLT):
+        sub = np.array([[xrow[v] for v in n.scope]], dtype=np.float32)
+        out = n.mpe(sub)[0]
+        return {v: float(out[j]) for j, v in enumerate(n.scope)}
+    raise Infra('leaf_mode')
+
+
+def descent_oracle(root, x, lls_row):
+    """the completion the property describes, computed independently of eval_top_down: at each sum node follow the child with the
+    largest weighted evidence log-likelihood (float64 on the implementation's own node values), products visit all children,
+    leaves fill their modes. Returns (completion dict, smallest arg-max margin met)."""
+    out, margin = {}, math.inf
+    stack, seen = [root], set()
+    while stack:
+        n = stack.pop()
+        if id(n) in seen:
+            continue
+        seen.add(id(n))
+        if isinstance(n, Sum):
+            sc = np.array([float(lls_row[c.id]) for c in n.children], dtype=np.float64) + np.log(np.asarray(n.weights, dtype=np.float64))
+            b = int(np.argmax(sc))
+            if len(sc) > 1:
+                srt = np.sort(sc)[::-1]
+                margin = min(margin, float(srt[0] - srt[1]))
+            stack.append(n.children[b])
+        elif isinstance(n, Product):
+            stack.extend(n.children)
+        else:
+            for v, val in leaf_mode(n, x).items():
+                if np.isnan(x[v]):
+                    out[v] = val
+    return out, margin
+
+
 def check_inplace(ctx, root, X, rep):
     X0 = X.copy()
     Y = mpe(root, X, inplace=False)
@@ -87,7 +136,7 @@ def circuit_case(ctx, k, cat_only):
     ncols = int(rs.randint(2, 7))
     nv = int(rs.randint(1, min(ncols, 5) + 1))
     scope = sorted(int(v) for v in rs.choice(ncols, nv, replace=False))
-    kinds = ('bern', 'cat') if cat_only else FAMILIES[rs.randint(len(FAMILIES))]
+    kinds = (('bern', 'cat'), ('bern', 'catl'), ('catl',))[k % 3] if cat_only else FAMILIES[rs.randint(len(FAMILIES))]
     root = S.rand_spn(rs, scope, depth=int(rs.randint(1, 5)), kinds=kinds, share=float(rs.choice([0.0, 0.3, 0.6])),
                       clt=(not cat_only and rs.rand() < 0.6))
     if not getattr(root, 'children', None):
@@ -133,6 +182,22 @@ def circuit_case(ctx, k, cat_only):
         ctx.violation('c06-zero-probability', f'evidence has positive probability but the completion has none (row {X[r].tolist()})',
                       replay=dict(rep, rows=[np.where(np.isnan(X[r]), None, X[r]).tolist()]))
         return
+    # the descent completion, by an oracle written independently of the top-down pass (every leaf family, CLT leaves included)
+    _, lls_all = log_likelihood(root, X, return_results=True)
+    for r in range(len(X)):
+        if not (ll_e[r] > -1e30):
+            continue
+        want, margin = descent_oracle(root, X[r], lls_all[:, r])
+        if margin <= 1e-3:
+            ctx.count('oracle-rows-near-tie-excluded')
+            continue
+        ctx.count('rows-vs-descent-oracle')
+        for v, val in want.items():
+            if abs(float(Y[r, v]) - val) > 1e-6 * (1 + abs(val)):
+                ctx.violation('c06-descent-oracle', f'variable {v} completed with {float(Y[r, v])!r}; following the largest weighted evidence likelihood at every sum node '
+                                                    f'and filling leaf modes gives {val!r} (evidence {X[r].tolist()}, smallest margin {margin:.3g})',
+                              replay=dict(rep, rows=[np.where(np.isnan(X[r]), None, X[r]).tolist()]))
+                return
     if not cat_only or not ctx.driver_ok:
         return
     drv = ctx.get_driver()
